@@ -16,12 +16,22 @@ from .c03 import features, judge, primary
 from .common import Ctx, Outcome
 
 
-def signature(rule: str, detail: Any, desc: dict) -> str:
+def _only_given(c: Any, part: str) -> bool:
+    """The part consists only of keys the caller supplied explicitly (nothing in it was generated)."""
+    if not c or part == "body" or c["parts"][part].get("t") != "obj":
+        return False
+    return all(k in c.get("given", {}).get(part, []) for k in c["parts"][part]["k"])
+
+
+def signature(rule: str, detail: Any, desc: dict, c: Any = None) -> str:
     parts = part_detail(detail)
     cls = lambda names: "+".join(sorted({"body" if n == "body" else "param" for n in names})) or "-"  # noqa: E731
     if rule == "part-absent-but-labelled":
         return "C02:part-absent-but-labelled"
     if rule == "valid-labelled-negative":
+        mislabelled = [t[0] for t in parts if t[1] == "T" and t[2] == "negative"]
+        if mislabelled and all(_only_given(c, p_) for p_ in mislabelled):
+            return "C02:valid-labelled-negative:only-explicit-values"
         return "C02:valid-labelled-negative:%s" % cls(t[0] for t in parts if t[1] == "T" and t[2] == "negative")
     if rule == "invalid-labelled-positive":
         kws = sorted({k for ks in kw_detail(detail).values() for k in ks})
